@@ -23,6 +23,9 @@ ck.regen()
 mods = ck.props_modules()
 if mods:
     ck.lean(mods)
+    ck.require_theorems([
+        'LbzVerif.Props.C06.deltaWindow_complete',
+    ])
 inproc.run_libs(ck, ['w12_emit'])
 exe = ck.build_lbzip2(asan=False)
 evals = nontriv = 0
@@ -30,7 +33,7 @@ samples = []
 dist = {}
 lean_n = None
 if exe:
-    cases, big = D.build_cases(ck, valid=True, malformed=False)
+    cases, big = D.build_cases(ck, valid=True, malformed=False, heavy=True)
     # the accepted part of the malformed family is conforming input too
     more, _ = D.build_cases(ck, valid=False, malformed=True)
     cases += [c for c in more if c.expect is not None]
